@@ -81,22 +81,26 @@ Definition file_owner (st : rstate) (m : nat) : option zs :=
   | None => None
   end.
 
+(* k -> m in r.modules (path of the module file), in r.resolved (request path) or in r.nodeModules (start dir + bare name) *)
 Definition cached (st : rstate) (k : zs) (m : nat) : Prop :=
-  cache_get (files_cache st) k = Some m \/ cache_get (node_cache st) k = Some m.
+  cache_get (files_cache st) k = Some m \/ cache_get (resolved_cache st) k = Some m \/ cache_get (node_cache st) k = Some m.
 
-(* every cached module is a file module that is also cached under its own (resolved) path *)
+(* the keys of r.modules are the paths of the module files themselves, and every module cached under a request path or a
+   bare name is a file module that is also cached under its own path *)
 Record Inv (st : rstate) : Prop := {
   inv_nd_f : nodupk (files_cache st);
+  inv_nd_r : nodupk (resolved_cache st);
   inv_nd_n : nodupk (node_cache st);
+  inv_own : forall k m, cache_get (files_cache st) k = Some m -> file_owner st m = Some k;
   inv_canon : forall k m, cached st k m -> exists p, file_owner st m = Some p /\ cache_get (files_cache st) p = Some m
 }.
 
-(* st' extends st: modules are only added, owners never change, cache entries of older modules stay *)
+(* st' extends st: modules are only added, owners never change, the r.modules entries of older modules stay
+   (a module under evaluation keeps its entry in every state nested requires can reach) *)
 Record ext (st st' : rstate) : Prop := {
   ext_len : (length (store st) <= length (store st'))%nat;
   ext_owner : forall m, (m < length (store st))%nat -> file_owner st' m = file_owner st m;
-  ext_files : forall k m, (m < length (store st))%nat -> cache_get (files_cache st) k = Some m -> cache_get (files_cache st') k = Some m;
-  ext_node : forall k m, (m < length (store st))%nat -> cache_get (node_cache st) k = Some m -> cache_get (node_cache st') k = Some m
+  ext_files : forall k m, (m < length (store st))%nat -> cache_get (files_cache st) k = Some m -> cache_get (files_cache st') k = Some m
 }.
 
 Lemma ext_refl st : ext st st.
@@ -104,11 +108,10 @@ Proof. constructor; auto. Qed.
 
 Lemma ext_trans a b c : ext a b -> ext b c -> ext a c.
 Proof.
-  intros [L1 O1 F1 N1] [L2 O2 F2 N2]. constructor.
+  intros [L1 O1 F1] [L2 O2 F2]. constructor.
   - lia.
   - intros m Hm. rewrite O2 by lia. apply O1. exact Hm.
   - intros k m Hm H. apply F2; [lia|]. apply F1; assumption.
-  - intros k m Hm H. apply N2; [lia|]. apply N1; assumption.
 Qed.
 
 Lemma file_owner_lt st m p : file_owner st m = Some p -> (m < length (store st))%nat.
@@ -122,19 +125,20 @@ Proof. intros HI Hc. destruct (inv_canon st HI k m Hc) as (p & Ho & _). eapply f
 
 (* transformers that touch neither the caches nor the owners *)
 Definition same_core (st st' : rstate) : Prop :=
-  files_cache st' = files_cache st /\ node_cache st' = node_cache st /\
+  files_cache st' = files_cache st /\ resolved_cache st' = resolved_cache st /\ node_cache st' = node_cache st /\
   length (store st') = length (store st) /\ (forall m, file_owner st' m = file_owner st m).
 
 Lemma same_core_inv st st' : same_core st st' -> Inv st -> Inv st'.
 Proof.
-  intros (Hf & Hn & Hl & Ho) [A B C]. constructor; rewrite ?Hf, ?Hn; try assumption.
-  intros k m Hc. unfold cached in Hc. rewrite Hf, Hn in Hc. destruct (C k m Hc) as (p & H1 & H2).
-  exists p. rewrite Ho. auto.
+  intros (Hf & Hr & Hn & Hl & Ho) [A Br B O C]. constructor; rewrite ?Hf, ?Hr, ?Hn; try assumption.
+  - intros k m H. rewrite Ho. apply O. exact H.
+  - intros k m Hc. unfold cached in Hc. rewrite Hf, Hr, Hn in Hc. destruct (C k m Hc) as (p & H1 & H2).
+    exists p. rewrite Ho. auto.
 Qed.
 
 Lemma same_core_ext st st' : same_core st st' -> ext st st'.
 Proof.
-  intros (Hf & Hn & Hl & Ho). constructor; rewrite ?Hf, ?Hn; auto; lia.
+  intros (Hf & Hr & Hn & Hl & Ho). constructor; rewrite ?Hf, ?Hn; auto; lia.
 Qed.
 
 Lemma sc_log_load st p : same_core st (log_load st p).
@@ -169,7 +173,7 @@ Proof. repeat split. Qed.
 
 (* a new module *)
 Lemma new_module_facts st o : let st' := fst (new_module st o) in let m := snd (new_module st o) in
-  m = length (store st) /\ files_cache st' = files_cache st /\ node_cache st' = node_cache st /\
+  m = length (store st) /\ files_cache st' = files_cache st /\ resolved_cache st' = resolved_cache st /\ node_cache st' = node_cache st /\
   length (store st') = S (length (store st)) /\
   (forall j, (j < length (store st))%nat -> file_owner st' j = file_owner st j) /\
   file_owner st' m = match o with OFile p => Some p | _ => None end.
@@ -182,11 +186,12 @@ Qed.
 
 Lemma new_module_inv st o : Inv st -> Inv (fst (new_module st o)) /\ ext st (fst (new_module st o)).
 Proof.
-  intro HI. destruct (new_module_facts st o) as (Hm & Hf & Hn & Hl & Ho & _). cbv zeta in *.
+  intro HI. destruct (new_module_facts st o) as (Hm & Hf & Hr & Hn & Hl & Ho & _). cbv zeta in *.
   split.
-  - destruct HI as [A B C]. constructor; rewrite ?Hf, ?Hn; try assumption.
-    intros k m Hc. unfold cached in Hc. rewrite Hf, Hn in Hc. destruct (C k m Hc) as (p & H1 & H2).
-    exists p. rewrite Ho by (eapply file_owner_lt; exact H1). auto.
+  - pose proof (fun k m => cached_lt st k m HI) as Hlt. destruct HI as [A Br B O C]. constructor; rewrite ?Hf, ?Hr, ?Hn; try assumption.
+    + intros k m H. rewrite Ho; [apply O; exact H|]. eapply Hlt. left. exact H.
+    + intros k m Hc. unfold cached in Hc. rewrite Hf, Hr, Hn in Hc. destruct (C k m Hc) as (p & H1 & H2).
+      exists p. rewrite Ho by (eapply file_owner_lt; exact H1). auto.
   - constructor; rewrite ?Hf, ?Hn, ?Hl; auto.
 Qed.
 
@@ -201,48 +206,85 @@ Proof. intros [_ E1] [I2 E2]. split; [exact I2|eapply ext_trans; eassumption]. Q
 Lemma good_sc st st' : same_core st st' -> Inv st -> good st st'.
 Proof. intros Hs HI. split; [eapply same_core_inv; eassumption|apply same_core_ext; exact Hs]. Qed.
 
-(* forgetting a failed module *)
+(* forgetting a failed module: it disappears from the three maps under every name, nothing else changes *)
+Lemma forget_get st m ps : Inv st ->
+  (forall k, cache_get (files_cache (forget st m ps)) k =
+     if zs_eqb k ps then None else match cache_get (files_cache st) k with Some m' => if Nat.eqb m' m then None else Some m' | None => None end) /\
+  (forall k, cache_get (resolved_cache (forget st m ps)) k =
+     match cache_get (resolved_cache st) k with Some m' => if Nat.eqb m' m then None else Some m' | None => None end) /\
+  (forall k, cache_get (node_cache (forget st m ps)) k =
+     match cache_get (node_cache st) k with Some m' => if Nat.eqb m' m then None else Some m' | None => None end).
+Proof.
+  intros [A Br B O C]. split; [|split]; intro k; unfold forget; cbn.
+  - rewrite get_del, get_del_val by exact A. reflexivity.
+  - apply get_del_val. exact Br.
+  - apply get_del_val. exact B.
+Qed.
+
 Lemma forget_good st m ps :
-  Inv st -> file_owner st m = Some ps ->
-  (cache_get (files_cache st) ps = Some m \/ cache_get (files_cache st) ps = None) ->
+  Inv st -> file_owner st m = Some ps -> cache_get (files_cache st) ps = Some m ->
   Inv (forget st m ps) /\
   (forall k m', m' <> m -> cache_get (files_cache st) k = Some m' -> cache_get (files_cache (forget st m ps)) k = Some m') /\
-  (forall k m', m' <> m -> cache_get (node_cache st) k = Some m' -> cache_get (node_cache (forget st m ps)) k = Some m') /\
   (forall k, ~ cached (forget st m ps) k m) /\
   length (store (forget st m ps)) = length (store st) /\ (forall j, file_owner (forget st m ps) j = file_owner st j).
 Proof.
-  intros [A B C] Ho Hps.
-  assert (Hf : forall k, cache_get (files_cache (forget st m ps)) k =
-               if zs_eqb k ps then None else match cache_get (files_cache st) k with Some m' => if Nat.eqb m' m then None else Some m' | None => None end).
-  { intro k. unfold forget. cbn. rewrite get_del, get_del_val by exact A. reflexivity. }
-  assert (Hn : forall k, cache_get (node_cache (forget st m ps)) k =
-               match cache_get (node_cache st) k with Some m' => if Nat.eqb m' m then None else Some m' | None => None end).
-  { intro k. unfold forget. cbn. apply get_del_val. exact B. }
+  intros HI Ho Hps. destruct (forget_get st m ps HI) as (Hf & Hr & Hn). destruct HI as [A Br B O C].
   assert (Hkeep : forall k m', m' <> m -> cache_get (files_cache st) k = Some m' -> cache_get (files_cache (forget st m ps)) k = Some m').
   { intros k m' Hne Hk. rewrite Hf, Hk. destruct (Nat.eqb_spec m' m); [contradiction|].
     destruct (zs_eqb k ps) eqn:E; [|reflexivity]. apply zs_eqb_eq in E. subst k.
-    destruct Hps as [Hps|Hps]; rewrite Hps in Hk; [inversion Hk; subst; contradiction|discriminate]. }
-  split; [|split; [exact Hkeep|split; [|split; [|split; [reflexivity|reflexivity]]]]].
+    rewrite Hps in Hk. inversion Hk; subst; contradiction. }
+  assert (Hback : forall k m', cached (forget st m ps) k m' -> cached st k m' /\ m' <> m).
+  { intros k m' [Hc|[Hc|Hc]].
+    - rewrite Hf in Hc. destruct (zs_eqb k ps); [discriminate|].
+      destruct (cache_get (files_cache st) k) as [x|] eqn:E; [|discriminate].
+      destruct (Nat.eqb_spec x m); [discriminate|]. inversion Hc; subst. split; [left; exact E|assumption].
+    - rewrite Hr in Hc. destruct (cache_get (resolved_cache st) k) as [x|] eqn:E; [|discriminate].
+      destruct (Nat.eqb_spec x m); [discriminate|]. inversion Hc; subst. split; [right; left; exact E|assumption].
+    - rewrite Hn in Hc. destruct (cache_get (node_cache st) k) as [x|] eqn:E; [|discriminate].
+      destruct (Nat.eqb_spec x m); [discriminate|]. inversion Hc; subst. split; [right; right; exact E|assumption]. }
+  split; [|split; [exact Hkeep|split; [|split; [reflexivity|reflexivity]]]].
   - constructor.
     + unfold forget. cbn. unfold cache_del. apply nodupk_filter. apply nodupk_filter. exact A.
+    + unfold forget. cbn. apply nodupk_filter. exact Br.
     + unfold forget. cbn. apply nodupk_filter. exact B.
-    + intros k m' Hc.
-      assert (Hold : cached st k m' /\ m' <> m).
-      { destruct Hc as [Hc|Hc].
-        - rewrite Hf in Hc. destruct (zs_eqb k ps); [discriminate|].
-          destruct (cache_get (files_cache st) k) as [x|] eqn:E; [|discriminate].
-          destruct (Nat.eqb_spec x m); [discriminate|]. inversion Hc; subst. split; [left; exact E|assumption].
-        - rewrite Hn in Hc. destruct (cache_get (node_cache st) k) as [x|] eqn:E; [|discriminate].
-          destruct (Nat.eqb_spec x m); [discriminate|]. inversion Hc; subst. split; [right; exact E|assumption]. }
-      destruct Hold as [Hold Hne]. destruct (C k m' Hold) as (p & H1 & H2).
+    + intros k m' Hc. destruct (Hback k m' (or_introl Hc)) as [[Hold|[Hold|Hold]] Hne].
+      * change (file_owner st m' = Some k). apply O. exact Hold.
+      * rewrite Hf in Hc. destruct (zs_eqb k ps); [discriminate|].
+        destruct (cache_get (files_cache st) k) as [x|] eqn:E; [|discriminate].
+        destruct (Nat.eqb x m); [discriminate|]. inversion Hc; subst. change (file_owner st m' = Some k). apply O. exact E.
+      * rewrite Hf in Hc. destruct (zs_eqb k ps); [discriminate|].
+        destruct (cache_get (files_cache st) k) as [x|] eqn:E; [|discriminate].
+        destruct (Nat.eqb x m); [discriminate|]. inversion Hc; subst. change (file_owner st m' = Some k). apply O. exact E.
+    + intros k m' Hc. destruct (Hback k m' Hc) as [Hold Hne]. destruct (C k m' Hold) as (p & H1 & H2).
       exists p. split; [exact H1|]. apply Hkeep; assumption.
-  - intros k m' Hne Hk. rewrite Hn, Hk. destruct (Nat.eqb_spec m' m); [contradiction|reflexivity].
-  - intros k [Hc|Hc].
-    + rewrite Hf in Hc. destruct (zs_eqb k ps); [discriminate|].
-      destruct (cache_get (files_cache st) k) as [x|]; [|discriminate].
-      destruct (Nat.eqb_spec x m); [discriminate|]. inversion Hc; subst. contradiction.
-    + rewrite Hn in Hc. destruct (cache_get (node_cache st) k) as [x|]; [|discriminate].
-      destruct (Nat.eqb_spec x m); [discriminate|]. inversion Hc; subst. contradiction.
+  - intros k Hc. destruct (Hback k m Hc) as [_ Hne]. apply Hne. reflexivity.
+Qed.
+
+(* r.modules[path] = module for a new module whose own path is that key *)
+Lemma add_file_inv st1 ps m : Inv st1 -> cache_get (files_cache st1) ps = None -> file_owner st1 m = Some ps ->
+  Inv (with_files st1 (cache_set (files_cache st1) ps m)).
+Proof.
+  intros [A Br B O C] Ec Hon.
+  assert (Hget2 : forall k, cache_get (files_cache (with_files st1 (cache_set (files_cache st1) ps m))) k = if zs_eqb k ps then Some m else cache_get (files_cache st1) k).
+  { intro k. cbn [files_cache with_files]. apply get_set. }
+  constructor.
+  - cbn [files_cache with_files]. apply nodupk_set. exact A.
+  - exact Br.
+  - exact B.
+  - intros k m' Hc. rewrite Hget2 in Hc. destruct (zs_eqb k ps) eqn:E.
+    + apply zs_eqb_eq in E. inversion Hc; subst. exact Hon.
+    + change (file_owner st1 m' = Some k). apply O. exact Hc.
+  - intros k m' Hc.
+    assert (Hcase : (k = ps /\ m' = m) \/ cached st1 k m').
+    { destruct Hc as [Hc|Hc]; [|right; right; exact Hc].
+      rewrite Hget2 in Hc. destruct (zs_eqb k ps) eqn:E.
+      - apply zs_eqb_eq in E. inversion Hc; subst. left. auto.
+      - right. left. exact Hc. }
+    destruct Hcase as [[-> ->]|Hc1].
+    + exists ps. split; [exact Hon|]. rewrite Hget2, zs_eqb_refl. reflexivity.
+    + destruct (C k m' Hc1) as (p' & H1 & H2). exists p'. split; [exact H1|].
+      rewrite Hget2. destruct (zs_eqb p' ps) eqn:E; [|exact H2].
+      apply zs_eqb_eq in E. subst p'. rewrite Ec in H2. discriminate.
 Qed.
 
 Section OpenProofs.
@@ -282,34 +324,19 @@ Proof.
   intro HI. unfold load_module. set (ps := render p).
   destruct (cache_get (files_cache st) ps) as [m0|] eqn:Ec.
   - cbn [fst snd]. split; [apply good_refl; exact HI|]. split; [apply (inv_canon st HI ps m0); left; exact Ec|]. intro Hn. unfold ps in *. congruence.
-  - destruct (new_module_facts st (OFile ps)) as (Hm & Hf1 & Hn1 & Hl1 & Ho1 & Hon). cbv zeta in *.
+  - destruct (new_module_facts st (OFile ps)) as (Hm & Hf1 & Hr1 & Hn1 & Hl1 & Ho1 & Hon). cbv zeta in *.
     destruct (new_module_inv st (OFile ps) HI) as [HI1 E1].
     destruct (new_module st (OFile ps)) as [st1 m] eqn:Enm. cbn [fst snd] in *.
     set (st2 := with_files st1 (cache_set (files_cache st1) ps m)).
     assert (Hget2 : forall k, cache_get (files_cache st2) k = if zs_eqb k ps then Some m else cache_get (files_cache st) k).
     { intro k. unfold st2. cbn [files_cache with_files]. rewrite get_set, Hf1. reflexivity. }
-    assert (HI2 : Inv st2).
-    { destruct HI1 as [A B C]. constructor.
-      - unfold st2. cbn [files_cache with_files]. apply nodupk_set. exact A.
-      - exact B.
-      - intros k m' Hc.
-        assert (Hcase : (k = ps /\ m' = m) \/ cached st1 k m').
-        { destruct Hc as [Hc|Hc]; [|right; right; exact Hc].
-          rewrite Hget2 in Hc. destruct (zs_eqb k ps) eqn:E.
-          - apply zs_eqb_eq in E. inversion Hc; subst. left. auto.
-          - right. left. rewrite Hf1. exact Hc. }
-        destruct Hcase as [[-> ->]|Hc1].
-        + exists ps. split; [exact Hon|]. rewrite Hget2, zs_eqb_refl. reflexivity.
-        + destruct (C k m' Hc1) as (p' & H1 & H2). exists p'. split; [exact H1|].
-          rewrite Hget2. destruct (zs_eqb p' ps) eqn:E; [|rewrite <- Hf1; exact H2].
-          apply zs_eqb_eq in E. subst p'. rewrite Hf1, Ec in H2. discriminate. }
+    assert (HI2 : Inv st2) by (apply add_file_inv; [exact HI1|rewrite Hf1; exact Ec|exact Hon]).
     assert (E2 : ext st st2).
     { constructor.
       - unfold st2. cbn. lia.
       - intros j Hj. apply Ho1. exact Hj.
       - intros k m0 Hm0 Hk. rewrite Hget2. destruct (zs_eqb k ps) eqn:E; [|exact Hk].
-        apply zs_eqb_eq in E. subst k. rewrite Ec in Hk. discriminate.
-      - intros k m0 Hm0 Hk. unfold st2. cbn. rewrite Hn1. exact Hk. }
+        apply zs_eqb_eq in E. subst k. rewrite Ec in Hk. discriminate. }
     assert (Hm2 : (m < length (store st2))%nat) by (unfold st2; cbn; lia).
     assert (Hown2 : file_owner st2 m = Some ps) by exact Hon.
     assert (Hps2 : cache_get (files_cache st2) ps = Some m) by (rewrite Hget2, zs_eqb_refl; reflexivity).
@@ -325,13 +352,12 @@ Proof.
     assert (Hfail : forall stx, Inv stx -> ext st2 stx ->
               good st (forget stx m ps) /\ (forall k, ~ cached (forget stx m ps) k m)).
     { intros stx HIx Ex. destruct (Hcarry stx Ex) as [Hox Hpx].
-      destruct (forget_good stx m ps HIx Hox (or_introl Hpx)) as (HIf & Kf & Kn & Kc & Hlen & Hown).
+      destruct (forget_good stx m ps HIx Hox Hpx) as (HIf & Kf & Kc & Hlen & Hown).
       split; [|exact Kc].
       split; [exact HIf|]. constructor.
       - rewrite Hlen. pose proof (ext_len _ _ Ex). pose proof (ext_len _ _ E2). lia.
       - intros j Hj. rewrite Hown. rewrite (ext_owner _ _ Ex) by (pose proof (ext_len _ _ E2); lia). apply (ext_owner _ _ E2). exact Hj.
-      - intros k m0 Hm0 Hk. apply Kf; [lia|]. apply (ext_files _ _ Ex); [pose proof (ext_len _ _ E2); lia|]. apply (ext_files _ _ E2); assumption.
-      - intros k m0 Hm0 Hk. apply Kn; [lia|]. apply (ext_node _ _ Ex); [pose proof (ext_len _ _ E2); lia|]. apply (ext_node _ _ E2); assumption. }
+      - intros k m0 Hm0 Hk. apply Kf; [lia|]. apply (ext_files _ _ Ex); [pose proof (ext_len _ _ E2); lia|]. apply (ext_files _ _ E2); assumption. }
     assert (E23 : ext st2 st3) by (apply same_core_ext; exact S3).
     destruct (fs_get fs ps) as [[prog|valid v|mn| |]|].
     + (* a JavaScript module *)
@@ -381,8 +407,6 @@ Lemma load_module_good st p : Inv st ->
   good st (fst (load_module fs rq st p)) /\ good_res (fst (load_module fs rq st p)) (snd (load_module fs rq st p)).
 Proof. intro HI. destruct (load_module_good3 st p HI) as (A & B & _). split; assumption. Qed.
 
-
-
 Lemma try_cands_good cs : forall st, Inv st ->
   good st (fst (try_cands fs rq st cs)) /\ good_res (fst (try_cands fs rq st cs)) (snd (try_cands fs rq st cs)).
 Proof.
@@ -414,85 +438,50 @@ Proof.
     pose proof (Hnew (ONative (skipn (length node_prefix) name) NCore)) as H. rewrite E in H. cbn [fst] in H. apply H.
 Qed.
 
-(* writing an alias for a module that is cached under its own path keeps the invariant *)
-Lemma alias_files_good st k m : Inv st -> good_res st (ROk m) -> cache_get (files_cache st) k = None ->
-  good st (with_files st (cache_set (files_cache st) k m)).
+(* recording what a request path / a bare name resolved to (r.resolved[p] = module, r.nodeModules[key] = module, written
+   unconditionally as in the code): the module is cached under its own path, so the invariant is kept *)
+Lemma alias_resolved_good st k m : Inv st -> good_res st (ROk m) ->
+  good st (with_resolved st (cache_set (resolved_cache st) k m)).
 Proof.
-  intros [A B C] (ps & Ho & Hp) Hk.
-  assert (Hget : forall k', cache_get (files_cache (with_files st (cache_set (files_cache st) k m))) k' = if zs_eqb k' k then Some m else cache_get (files_cache st) k').
-  { intro k'. cbn [files_cache with_files]. apply get_set. }
+  intros [A Br B O C] (ps & Ho & Hp).
+  assert (Hget : forall k', cache_get (resolved_cache (with_resolved st (cache_set (resolved_cache st) k m))) k' = if zs_eqb k' k then Some m else cache_get (resolved_cache st) k').
+  { intro k'. cbn [resolved_cache with_resolved]. apply get_set. }
   split.
   - constructor.
-    + cbn [files_cache with_files]. apply nodupk_set. exact A.
+    + exact A.
+    + cbn [resolved_cache with_resolved]. apply nodupk_set. exact Br.
     + exact B.
+    + exact O.
     + intros k' m' Hc.
       assert (Hcase : m' = m \/ cached st k' m').
-      { destruct Hc as [Hc|Hc]; [|right; right; exact Hc]. rewrite Hget in Hc.
-        destruct (zs_eqb k' k); [inversion Hc; left; reflexivity|right; left; exact Hc]. }
-      assert (Hkeep : forall p m0, cache_get (files_cache st) p = Some m0 -> cache_get (files_cache (with_files st (cache_set (files_cache st) k m))) p = Some m0).
-      { intros p m0 H. rewrite Hget. destruct (zs_eqb p k) eqn:E; [|exact H]. apply zs_eqb_eq in E. subst p. rewrite Hk in H. discriminate. }
+      { destruct Hc as [Hc|[Hc|Hc]]; [right; left; exact Hc| |right; right; right; exact Hc]. rewrite Hget in Hc.
+        destruct (zs_eqb k' k); [inversion Hc; left; reflexivity|right; right; left; exact Hc]. }
       destruct Hcase as [->|Hc1].
-      * exists ps. split; [exact Ho|apply Hkeep; exact Hp].
-      * destruct (C k' m' Hc1) as (p' & H1 & H2). exists p'. split; [exact H1|apply Hkeep; exact H2].
+      * exists ps. split; [exact Ho|exact Hp].
+      * destruct (C k' m' Hc1) as (p' & H1 & H2). exists p'. split; [exact H1|exact H2].
   - constructor; auto.
-    intros k' m0 _ H. rewrite Hget. destruct (zs_eqb k' k) eqn:E; [|exact H]. apply zs_eqb_eq in E. subst k'. rewrite Hk in H. discriminate.
 Qed.
 
-Lemma alias_node_good st k m : Inv st -> good_res st (ROk m) -> cache_get (node_cache st) k = None ->
+Lemma alias_node_good st k m : Inv st -> good_res st (ROk m) ->
   good st (with_node st (cache_set (node_cache st) k m)).
 Proof.
-  intros [A B C] (ps & Ho & Hp) Hk.
+  intros [A Br B O C] (ps & Ho & Hp).
   assert (Hget : forall k', cache_get (node_cache (with_node st (cache_set (node_cache st) k m))) k' = if zs_eqb k' k then Some m else cache_get (node_cache st) k').
   { intro k'. cbn [node_cache with_node]. apply get_set. }
   split.
   - constructor.
     + exact A.
+    + exact Br.
     + cbn [node_cache with_node]. apply nodupk_set. exact B.
+    + exact O.
     + intros k' m' Hc.
       assert (Hcase : m' = m \/ cached st k' m').
-      { destruct Hc as [Hc|Hc]; [right; left; exact Hc|]. rewrite Hget in Hc.
-        destruct (zs_eqb k' k); [inversion Hc; left; reflexivity|right; right; exact Hc]. }
+      { destruct Hc as [Hc|[Hc|Hc]]; [right; left; exact Hc|right; right; left; exact Hc|]. rewrite Hget in Hc.
+        destruct (zs_eqb k' k); [inversion Hc; left; reflexivity|right; right; right; exact Hc]. }
       destruct Hcase as [->|Hc1].
       * exists ps. split; [exact Ho|exact Hp].
       * destruct (C k' m' Hc1) as (p' & H1 & H2). exists p'. split; [exact H1|exact H2].
   - constructor; auto.
-    intros k' m0 _ H. rewrite Hget. destruct (zs_eqb k' k) eqn:E; [|exact H]. apply zs_eqb_eq in E. subst k'. rewrite Hk in H. discriminate.
-Qed.
-
-(* the key may have been filled in by the candidates themselves (require('./a.js') probes its own path first):
-   writing it again with the same module changes nothing observable; in general we only need Inv and ext *)
-Lemma set_files_good st k m : Inv st -> good_res st (ROk m) ->
-  (cache_get (files_cache st) k = None \/ cache_get (files_cache st) k = Some m) ->
-  good st (with_files st (cache_set (files_cache st) k m)).
-Proof.
-  intros HI Hr [Hk|Hk]; [apply alias_files_good; assumption|].
-  destruct HI as [A B C]. destruct Hr as (ps & Ho & Hp).
-  assert (Hget : forall k', cache_get (files_cache (with_files st (cache_set (files_cache st) k m))) k' = cache_get (files_cache st) k').
-  { intro k'. cbn [files_cache with_files]. rewrite get_set. destruct (zs_eqb k' k) eqn:E; [|reflexivity]. apply zs_eqb_eq in E. subst. symmetry. exact Hk. }
-  split.
-  - constructor.
-    + cbn [files_cache with_files]. apply nodupk_set. exact A.
-    + exact B.
-    + intros k' m' Hc. unfold cached in Hc. rewrite Hget in Hc. destruct (C k' m' Hc) as (p' & H1 & H2).
-      exists p'. split; [exact H1|rewrite Hget; exact H2].
-  - constructor; auto. intros k' m0 _ H. rewrite Hget. exact H.
-Qed.
-
-Lemma set_node_good st k m : Inv st -> good_res st (ROk m) ->
-  (cache_get (node_cache st) k = None \/ cache_get (node_cache st) k = Some m) ->
-  good st (with_node st (cache_set (node_cache st) k m)).
-Proof.
-  intros HI Hr [Hk|Hk]; [apply alias_node_good; assumption|].
-  destruct HI as [A B C]. destruct Hr as (ps & Ho & Hp).
-  assert (Hget : forall k', cache_get (node_cache (with_node st (cache_set (node_cache st) k m))) k' = cache_get (node_cache st) k').
-  { intro k'. cbn [node_cache with_node]. rewrite get_set. destruct (zs_eqb k' k) eqn:E; [|reflexivity]. apply zs_eqb_eq in E. subst. symmetry. exact Hk. }
-  split.
-  - constructor.
-    + exact A.
-    + cbn [node_cache with_node]. apply nodupk_set. exact B.
-    + intros k' m' Hc. unfold cached in Hc. rewrite Hget in Hc. destruct (C k' m' Hc) as (p' & H1 & H2).
-      exists p'. split; [exact H1|exact H2].
-  - constructor; auto. intros k' m0 _ H. rewrite Hget. exact H.
 Qed.
 
 Lemma resolve_good st d r : Inv st -> good st (fst (resolve fs nat_reg rq st d r)).
@@ -500,14 +489,11 @@ Proof.
   intro HI. unfold resolve.
   set (p := pjoin (if is_abs r then None else Some d) r). set (ps := render p).
   destruct (is_file_or_dir_path r).
-  - destruct (cache_get (files_cache st) ps) eqn:Ec; [apply good_refl; exact HI|].
-    destruct (try_cands_good (cands_file_or_dir fs p) st HI) as [G R].
-    destruct (try_cands fs rq st (cands_file_or_dir fs p)) as [st1 x]. cbn [fst snd] in *.
+  - destruct (cache_get (resolved_cache st) ps) eqn:Ec; [apply good_refl; exact HI|].
+    destruct (try_cands_good (cands_file_or_dir fs (parse ps)) st HI) as [G R].
+    destruct (try_cands fs rq st (cands_file_or_dir fs (parse ps))) as [st1 x]. cbn [fst snd] in *.
     destruct x as [m| | | |]; try exact G. cbn [fst].
-    destruct (cache_get (files_cache st1) ps) as [m'|] eqn:E1.
-    + destruct (Nat.eqb_spec m' m) as [->|Hne]; [|exact G].
-      eapply good_trans; [exact G|]. apply set_files_good; [exact (proj1 G)|exact R|right; exact E1].
-    + eapply good_trans; [exact G|]. apply set_files_good; [exact (proj1 G)|exact R|left; exact E1].
+    eapply good_trans; [exact G|]. apply alias_resolved_good; [exact (proj1 G)|exact R].
   - pose proof (load_native_good st r HI) as G0. destruct (load_native nat_reg st r) as [st0 rn]. cbn [fst] in G0.
     destruct rn as [m| | | |]; try exact G0.
     set (nk := render d ++ 0 :: r).
@@ -516,10 +502,7 @@ Proof.
     destruct (try_cands fs rq st0 (cands_node fs d r)) as [st1 x]. cbn [fst snd] in *.
     assert (G01 : good st st1) by (eapply good_trans; eassumption).
     destruct x as [m| | | |]; try exact G01. cbn [fst].
-    destruct (cache_get (node_cache st1) nk) as [m'|] eqn:E1.
-    + destruct (Nat.eqb_spec m' m) as [->|Hne]; [|exact G01].
-      eapply good_trans; [exact G01|]. apply set_node_good; [exact (proj1 G)|exact R|right; exact E1].
-    + eapply good_trans; [exact G01|]. apply set_node_good; [exact (proj1 G)|exact R|left; exact E1].
+    eapply good_trans; [exact G01|]. apply alias_node_good; [exact (proj1 G)|exact R].
 Qed.
 
 End OpenProofs.
@@ -533,7 +516,7 @@ Proof.
 Qed.
 
 Lemma init_inv : Inv init_state.
-Proof. constructor; try constructor. intros k m [H|H]; discriminate. Qed.
+Proof. constructor; try constructor; try discriminate. intros k m [H|[H|H]]; discriminate. Qed.
 
 Theorem top_require_inv fs nat_reg fuel st d r : Inv st -> Inv (fst (top_require fs nat_reg fuel st d r)).
 Proof.
@@ -556,8 +539,8 @@ Proof.
   apply H. apply init_inv.
 Qed.
 
-(* one live module per file: any two cache entries (under whatever spelling, in either cache) whose modules belong to
-   the same file hold the identical module *)
+(* one live module per file: any two cache entries (under whatever spelling, in any of the three maps) whose modules belong
+   to the same file hold the identical module *)
 Theorem one_module_per_file st k1 m1 k2 m2 p :
   Inv st -> cached st k1 m1 -> cached st k2 m2 -> file_owner st m1 = Some p -> file_owner st m2 = Some p -> m1 = m2.
 Proof.
